@@ -57,6 +57,17 @@ def render(n, direct, listed, fails, names, variant=0, ignored=None, nulls=()):
     return "\n".join(lines)
 
 
+def split_commands(src):
+    """the rendered source as one block of text per command (a command starts at a line 'Name = Probe(')"""
+    blocks = []
+    for line in src.split("\n"):
+        if " = Probe(" in line and not line.startswith(" "):
+            blocks.append(line)
+        else:
+            blocks[-1] += "\n" + line
+    return blocks
+
+
 def unfold(c, deps, names, memo, nulls=()):
     if c not in memo:
         memo[c] = None if c in nulls else (names[c - 1], tuple((names[d - 1], unfold(d, deps, names, memo, nulls)) for d in deps[c]))
@@ -87,12 +98,19 @@ def _worker_init():
 
 def replay_one(job):
     """job = (jid, n, direct, listed, fails, hist, variant) -> dict(trace record, projection)"""
-    jid, n, direct, listed, fails, hist, variant, ignored, nulls = job
+    jid, n, direct, listed, fails, hist, variant, ignored, nulls, late = job
     tracer = _W["tracer"]
     from mpilot.program import Program
 
     names = names_for(n, variant)
-    src = render(n, direct, listed, fails, names, variant, ignored, nulls)
+    full = render(n, direct, listed, fails, names, variant, ignored, nulls)
+    src = full
+    late_src = None
+    if late:
+        # the late commands are not in the program at first: they are added through add_command after the first call
+        blocks = split_commands(full)
+        src = "\n".join(b for c, b in zip(range(1, n + 1), blocks) if c not in late)
+        late_src = "\n".join(b for c, b in zip(range(1, n + 1), blocks) if c in late)
     tracer.reset()
     EV = tracer.EV
     res = {"id": jid, "src": src, "hist": hist, "load_error": None}
@@ -104,7 +122,15 @@ def replay_one(job):
     tracer.install()
     outcomes = []
     for call in hist:
-        if call[0] == "run":
+        if call[0] == "add":
+            from collections import OrderedDict
+            tmp = Program.from_source(late_src, libraries=("vprobe",))
+            for nm, cmd in tmp.commands.items():
+                p.add_command(type(cmd), nm, OrderedDict((a.name, a) for a in cmd.arguments), cmd.lineno)
+            tracer.install()
+            EV.append({"ev": "add"})
+            outcomes.append(("ok", "", ""))
+        elif call[0] == "run":
             EV.append({"ev": "call_run"})
             try:
                 p.run()
@@ -155,7 +181,7 @@ def replay_one(job):
     res.update({"outcomes": outcomes, "nexec": nexec, "ndone": ndone, "finished": finished, "bad_values": bad_values,
                 "trace": {"id": jid, "strict": True,
                           "deps": {names[c - 1]: [names[d - 1] for d in deps[c]] for c in range(1, n + 1)},
-                          "fails": [names[c - 1] for c in sorted(fails)],
+                          "fails": [names[c - 1] for c in sorted(fails)], "late": [names[c - 1] for c in sorted(late)],
                           "ignored": {names[c - 1]: [names[d - 1] for d in sorted(ignored.get(c, ()))] for c in range(1, n + 1)}, "ev": list(EV)}})
     return res
 
@@ -229,9 +255,10 @@ def parse_terms(out):
     groups = defaultdict(set)
     n = 0
     for t in core.parse_printt(out, "TERM"):
-        _, direct, listed, fails, ignored, nulls, hist, pstate, err, nexec, ndone = t
+        _, direct, listed, fails, ignored, nulls, late, hist, pstate, err, nexec, ndone = t
         n += 1
-        key = (core.freeze(_fn(direct)), core.freeze(_fn(listed)), tuple(sorted(fails)), core.freeze(hist), core.freeze(_fn(ignored)), tuple(sorted(nulls)))
+        key = (core.freeze(_fn(direct)), core.freeze(_fn(listed)), tuple(sorted(fails)), core.freeze(hist), core.freeze(_fn(ignored)), tuple(sorted(nulls)),
+               tuple(sorted(late)))
         groups[key].add((pstate, err, tuple(_fnseq(nexec)), tuple(_fnseq(ndone))))
     return groups, n
 
@@ -253,11 +280,11 @@ def jobs_from_groups(groups, variants):
     jobs = []
     keys = []
     for key in sorted(groups):
-        direct, listed, fails, hist, ignored, nulls = key
+        direct, listed, fails, hist, ignored, nulls, late = key
         n = len(direct)
         for v in variants:
             jobs.append((len(jobs), n, {c + 1: list(direct[c]) for c in range(n)}, {c + 1: list(listed[c]) for c in range(n)},
-                         set(fails), [tuple(h) for h in hist], v, {c + 1: list(ignored[c]) for c in range(n)}, set(nulls)))
+                         set(fails), [tuple(h) for h in hist], v, {c + 1: list(ignored[c]) for c in range(n)}, set(nulls), set(late)))
             keys.append(key)
     return jobs, keys
 
@@ -391,12 +418,12 @@ def decide(chk, prop, tlc_jobs, variants, strict_counts=True, sample_filter=None
         compare_replay(chk, prop, key, groups[key], r, strict_counts)
         if r.get("trace"):
             records.append(r["trace"])
-        direct, listed, fails, hist, ignored, nulls = key
+        direct, listed, fails, hist, ignored, nulls, late = key
         indeg = defaultdict(int)
         for c in range(len(direct)):
             for d in direct[c] + listed[c]:
                 indeg[d] += 1
-        if any(v >= 2 for v in indeg.values()) or any(listed) or len(hist) > 1 or any(ignored) or nulls:
+        if any(v >= 2 for v in indeg.values()) or any(listed) or len(hist) > 1 or any(ignored) or nulls or late:
             nontrivial.add(key)
         if sample_filter is None or sample_filter(key):
             if len(chk.cov["samples"]) < 4 and (len(nontrivial) % 997 == 1 or len(chk.cov["samples"]) == 0) and key in nontrivial:
